@@ -9,13 +9,20 @@
  * Property clauses decided here (for the stated LEN):
  *  - atoms: decimal / #x hexadecimal (either letter case) integers and
  *    symbols, after arbitrary whitespace, yield the right node and the
- *    position just past the token                      (C20.*.int*, .sym*, .position)
+ *    position just past the token                 (C20.atom.*)
  *  - input that does not begin with a complete expression (blank, broken
- *    integer, broken symbol, unknown octet, stray ')') yields an error status,
- *    no node, no live allocation                       (C20.parse.*-is-error, .error-no-node, .error-no-leak)
- *  - no octet outside s[0..LEN) is read                (CBMC bounds/pointer checks on the exact-size object; ASan in replay)
- *  - termination                                       (unwinding assertions)
- *  - sx_destroy releases everything that was returned  (C20.destroy.*)
+ *    integer, broken symbol, unknown octet, stray ')') yields an error
+ *    status, no node, no live allocation          (C20.bad-token-*, C20.parse.blank-is-error,
+ *                                                  C20.parse.stray-close-*, C20.error-no-node,
+ *                                                  C20.no-node-no-live-allocation)
+ *  - no octet outside s[0..LEN) is read           (CBMC bounds/pointer checks on the
+ *                                                  exact-size object; ASan in replay)
+ *  - nothing is written past an allocation        (C20.no-write-past-allocation, C20.atom.sym-storage)
+ *  - termination                                  (unwinding assertions)
+ *  - sx_destroy releases what was returned        (C20.destroy.*)
+ * How sx_parse_token reports '(' (SXS_FOUND_LIST, no node, position just
+ * past) is asserted because the header publishes that status; how it reports
+ * ')' is left open (internal to the list reader).
  */
 #include "c20_common.h"
 
@@ -45,8 +52,9 @@ check_atom(const struct sx_node *node, const char *s, const struct ref_tok *t)
         const size_t len = t->end - t->start;
         VP_ASSERT(node->type == SXT_SYMBOL, "C20.atom.sym-type");
         if (node->type == SXT_SYMBOL) {
-            const char *sym = node->data.symbol;
-            VP_ASSERT(sym != NULL && VP_R_OK(sym, len + 1), "C20.atom.sym-storage");
+            const char *sym = vp_sym_view(node->data.symbol);
+            VP_ASSERT(sym != NULL && vp_sym_block_size(node->data.symbol) >= len + 1,
+                      "C20.atom.sym-storage");
             if (sym != NULL) {
                 bool same = true;
                 for (size_t k = 0; k < LEN; ++k)
@@ -88,6 +96,7 @@ harness(void)
     VP_ASSERT(!(c20_is_error(r.status) && r.status != SXS_FOUND_LIST) || r.node == NULL,
               "C20.error-no-node");
     VP_ASSERT(vp_bad_free == 0, "C20.no-bad-free");
+    VP_ASSERT(vp_canaries_ok(), "C20.no-write-past-allocation");
     if (r.node == NULL)
         VP_ASSERT(vp_live == 0, "C20.no-node-no-live-allocation");
 
